@@ -20,6 +20,30 @@ type Gen struct {
 	// Focus is the property id ("C01".."C04"); it selects which Go-side
 	// oracles report violations (each property reports only its own).
 	Focus string
+	// crashed: case indices during which a probe child died (core.Ctx.ProbeCrashes)
+	crashed map[int]string
+}
+
+// SpecHuman renders a session specification (what was asked for, not what was observed).
+func SpecHuman(spec SessionSpec) interface{} {
+	var runs []string
+	for n, rs := range spec.Runs {
+		var hs []string
+		for _, h := range rs.Handlers {
+			if h.Regular {
+				hs = append(hs, "regular")
+			} else {
+				hs = append(hs, fmt.Sprintf("scripted(namePanics=%v auth=%d gen=%d keys=%+v)", h.NamePanics, h.Auth, h.Gen, h.Keys))
+			}
+		}
+		var sg []string
+		for _, o := range rs.Signer {
+			sg = append(sg, fmt.Sprintf("%d", o.Kind))
+		}
+		runs = append(runs, fmt.Sprintf("run %d: handlers %v; signer outcome kinds %v (0 ok, %d error, %d panic); agent faults %v; agent behaviour %d",
+			n, hs, sg, SigErr, SigPanic, rs.Faults, rs.Beh.Kind))
+	}
+	return runs
 }
 
 func NewGen(c *core.Ctx, focus string) *Gen {
@@ -210,6 +234,30 @@ func (g *Gen) BehOf(kind int, user *PoolKey) Beh {
 // records the case.
 func (g *Gen) Emit(class string, spec SessionSpec) *Session {
 	c := g.C
+	if c.Probing() {
+		// probe child: run the same case stream, report which case is running, record nothing
+		idx := c.NextIndex()
+		if c.ProbeSkip(idx) || (c.Only >= 0 && idx != c.Only) {
+			c.Advance()
+			return nil
+		}
+		c.ProbeMark("BEGIN", idx)
+		s := Execute(g.Pool, spec, g.R)
+		c.ProbeMark("END", idx)
+		c.Advance()
+		return s
+	}
+	if g.crashed == nil {
+		g.crashed = c.ProbeCrashes()
+		if msg, ok := g.crashed[-1]; ok {
+			c.Native("the harness does not survive a dry run of its own case stream: "+msg, nil)
+		}
+	}
+	if msg, ok := g.crashed[c.NextIndex()]; ok && (c.Only < 0 || c.Only == c.NextIndex()) {
+		c.Native("gensign.Run crashed the whole process (a panic outside Run's recover): "+msg, map[string]interface{}{"class": class, "session": SpecHuman(spec)})
+		c.Case(class, "(CNewHandler (mkRaw None []) false)", map[string]string{"error": "process crash, see the native oracle report"})
+		return nil
+	}
 	if c.Skip() {
 		return nil
 	}
